@@ -264,8 +264,9 @@ class XPathNode:
         pos = 0
         if self.children:
             for c in self.children:
-                if isinstance(child, ElementNode):
-                    if c.name == child.name:
+                if isinstance(child, (ElementNode, ProcessingInstructionNode)):
+                    # name tests and processing-instruction(target) count same-kind same-name siblings
+                    if isinstance(c, child.__class__) and c.name == child.name:
                         pos += 1
                 elif isinstance(c, child.__class__):
                     pos += 1
